@@ -132,6 +132,14 @@ pub proof fn lemma_floor_le(x: int, n: int, d: int)
     lemma_fundamental_div_mod(x * n, d); lemma_mod_bound(x * n, d); lemma_mul_is_commutative(d, (x * n) / d);
     lemma_div_pos_is_pos(x * n, d);
 }
+/// what a swap with positive impact pays out is covered by the (augmented) input and the tokens taken from the output-side impact pool
+pub proof fn lemma_funded_positive(tin: int, pool_out: int, pia: int, pin_min: int, pout_max: int)
+    requires tin >= 0, pin_min >= 0, pout_max > 0, pool_out == mul_div_floor(tin, pin_min, pout_max)
+    ensures (pool_out + pia) * pout_max <= tin * pin_min + pia * pout_max
+{
+    lemma_floor_le(tin, pin_min, pout_max);
+    lemma_mul_is_distributive_add_other_way(pout_max, pool_out, pia);
+}
 /// the value bound of a swap with positive impact
 pub proof fn lemma_positive_swap_value(af: int, cd: int, pool_out: int, pia: int, pin_min: int, pin_max: int, pout_max: int, capped: int, impact: int)
     requires af >= 0, cd >= 0, pia >= 0, 0 <= pin_min <= pin_max, pout_max > 0,
@@ -266,6 +274,15 @@ pub struct Swap { pub market: SMarket, pub params: SwapParams }
 pub open spec fn pin_of(w: Swap) -> Price { if w.params.is_token_in_long { w.params.prices.long_token_price } else { w.params.prices.short_token_price } }
 pub open spec fn pout_of(w: Swap) -> Price { if w.params.is_token_in_long { w.params.prices.short_token_price } else { w.params.prices.long_token_price } }
 pub open spec fn fees_of(r: SwapResult) -> int { r.token_in_fees.fee_amount_for_pool@ + r.token_in_fees.fee_amount_for_receiver@ }
+/// value paid out (at the max output price) <= value of the input after fees (at the min input price) + value released by the two
+/// swap impact pools (`before` -> `after`): input-token side at the min input price, output-token side at the max output price
+pub open spec fn funded(before: Sides, after: Sides, sw: Swap, res: SwapResult) -> bool {
+    let il = sw.params.is_token_in_long;
+    let d_in = side(before, il) - side(after, il);
+    let d_out = side(before, !il) - side(after, !il);
+    &&& d_out >= 0
+    &&& res.token_out_amount@ * pout_of(sw).max@ <= (sw.params.token_in_amount@ - fees_of(res) + d_in) * pin_of(sw).min@ + d_out * pout_of(sw).max@
+}
 impl Swap {
 //@unit C05.Swap.reassign_values
 //@ file crates/model/src/action/swap.rs
@@ -297,7 +314,7 @@ impl Swap {
 //@ fn try_execute
 //@ sig fn try_execute( &self, ) -> crate::Result<( Cache<'_, M, DECIMALS>, SwapResult<M::Num, <M::Num as Unsigned>::Signed>, )>
 //@ sub market: &self\.market,\n =>
-//@ before token_out_amount = pool_amount_out.checked_add :: proof { lemma_positive_swap_value(amount_after_fees@, capped_diff_token_in_amount@, pool_amount_out@, price_impact_amount@, token_in_price.min@, token_in_price.max@, token_out_price.max@, capped_diff_value@, price_impact@); }
+//@ before token_out_amount = pool_amount_out.checked_add :: proof { lemma_positive_swap_value(amount_after_fees@, capped_diff_token_in_amount@, pool_amount_out@, price_impact_amount@, token_in_price.min@, token_in_price.max@, token_out_price.max@, capped_diff_value@, price_impact@); lemma_funded_positive(token_in_amount@, pool_amount_out@, price_impact_amount@, token_in_price.min@, token_out_price.max@); }
 //@ before pool_amount_out = token_out_amount.clone(); :: proof { lemma_floor_le(token_in_amount@, token_in_price.min@, token_out_price.max@); lemma_mul_inequality(token_in_amount@, amount_after_fees@, token_in_price.min@); }
 //@ sub assert\(!signed_price_impact_amount\.is_negative\(\)\); => assert(signed_price_impact_amount@ >= 0);
 //@ sub assert\(!capped_diff_token_in_amount\.is_negative\(\)\); => assert(capped_diff_token_in_amount@ >= 0);
@@ -318,6 +335,24 @@ impl Swap {
                 <= (self.params.token_in_amount@ - fees_of(r.unwrap().1)) * pin_of(*self).min@,
             // with zero fees and zero impact: the input converted at the least favourable prices, rounded down
             r.is_ok() && r.unwrap().1.price_impact_value@ == 0 && fees_of(r.unwrap().1) == 0 ==> r.unwrap().1.token_out_amount@ == mul_div_floor(self.params.token_in_amount@, pin_of(*self).min@, pout_of(*self).max@),
+            // FUNDED: whatever is paid out beyond the value of the input (after fees) is released by the swap impact pools - the new
+            // impact pools (the cache) hold exactly that much less
+            r.is_ok() ==> funded(self.market.swap_impact, r.unwrap().0.swap_impact, *self, r.unwrap().1),
+            r.is_ok() ==> (r.unwrap().0.virtual_inventory.is_some() ==> self.market.virtual_inventory.is_some()),
+//@body
+
+//@unit C05.Swap.execute
+//@ file crates/model/src/action/swap.rs
+//@ within impl<const DECIMALS: u8, M> MarketAction for Swap<M, DECIMALS>
+//@ fn execute
+//@ sig fn execute(mut self) -> crate::Result<Self::Report>
+    fn execute(&mut self) -> (r: Result<SwapReport, E>)
+        requires
+            old(self).params.prices.long_token_price.min@ <= old(self).params.prices.long_token_price.max@,
+            old(self).params.prices.short_token_price.min@ <= old(self).params.prices.short_token_price.max@,
+        ensures
+            // the market's swap impact pools are debited by what funded the payout (the computed pools are the ones stored)
+            r.is_ok() ==> final(self).params == old(self).params && funded(old(self).market.swap_impact, final(self).market.swap_impact, *old(self), r.unwrap().result),
 //@body
 
 }
